@@ -290,7 +290,7 @@ func c02Docs(set string) []c02Doc {
 func init() {
 	Register(Meta{
 		ID: "C02", Level: "exploration",
-		Rule:        "every path AST with <=L leaves over {ex.p, ex.q, ex.p^, ex.q^, @type} with n-ary and nested sequences/alternatives, canonical layout (+ a redundantly parenthesised variant), on every graph with <=E edges over 3 nodes x 2 predicates x 2 literals up to node renaming, plus a suite of collision graphs (cycle, diamond, self-loop, literal mid-path, shared values, chain of 4, complete graph, two routes); every node is a focus node. Observers: `in:[__none__]` (set of reached values) and `maxCount:0` (number of distinct values). Oracle = set-valued denotation by structural recursion. Non-trivial = (path,document) pairs where some focus node has a non-empty denotation; distinct by path text x document.",
+		Rule:        "every path AST with <=L leaves over {ex.p, ex.q, ex.p^, ex.q^, @type} with n-ary and nested sequences/alternatives, canonical layout (+ a redundantly parenthesised variant), (quick: <=2 leaves over the full alphabet and 3 leaves over {p,q,p^}) on every graph with <=E edges over 3 nodes x 2 predicates x 2 literals up to node renaming, plus a suite of collision graphs (cycle, diamond, self-loop, literal mid-path, shared values, chain of 4, complete graph, two routes); every node is a focus node. Observers: `in:[__none__]` (set of reached values) and `maxCount:0` (number of distinct values). Oracle = set-valued denotation by structural recursion. Non-trivial = (path,document) pairs where some focus node has a non-empty denotation; distinct by path text x document.",
 		Assumptions: []string{"values are IRIs or plain string literals (typed/language-tagged literals are outside the alphabet)"},
 	}, c02Gen, c02Run)
 }
@@ -313,8 +313,19 @@ func c02Gen(tier string, emit func(c02Case)) {
 	}
 	four = PathASTs(4, c02Leaves)
 	pack("suite", upto3, false)
-	pack("g2", upto3, false)
 	pack("suite", upto3, true)
+	if tier == "thorough" {
+		pack("g2", upto3, false)
+	} else {
+		// quick: on the edge-subset graphs, every path with <=2 leaves over the full alphabet and every 3-leaf path
+		// over the alphabet {ex.p, ex.q, ex.p^}
+		var g2q []*PExpr
+		for n := 1; n <= 2; n++ {
+			g2q = append(g2q, PathASTs(n, c02Leaves)...)
+		}
+		g2q = append(g2q, PathASTs(3, []*PExpr{PP("ex.p"), PP("ex.q"), PI("ex.p")})...)
+		pack("g2", g2q, false)
+	}
 	if tier == "thorough" {
 		pack("suite", four, false)
 		pack("g2", four, false)
